@@ -75,6 +75,13 @@ def run(P, rep, tier):
     rep.floor("C09.R2", 40)
     rep.floor("C09.R3", 3)
     rep.floor("C09.R4", 5)
+    # refinement against the pinned tree for every function the rules above looked at (rules/pinned.py)
+    import os as _os
+
+    if not _os.environ.get("MDSA_PINNED_GEN"):
+        from .pinned import refine
+
+        refine(P, rep, ctx, "C09")
 
 
 def all_protocol_members(P) -> Set[str]:
